@@ -20,12 +20,15 @@ PROPS_GEN = ["no_ub", "compare_mixed_correct", "compare_mixed_correct_unsigned",
 PROPS = ["wrap_ops_eq_bitvec", "wrap_ops_in_range", "shift_ops_eq_bitvec", "divf_eq_floor_div", "mod_eq_floor_mod", "trunc_div_rem_correct",
          "mod_zero_is_dividend", "div_zero_errors", "no_ub_iff_guarded", "no_ub_partial", "ub_reachable_on_pinned",
          "cmpIntDbl_is_exact", "cmpIntDbl_eq_rat", "rnd53_exact_small_monotone_edge", "compare_mixed_correct_of_inclusive", "compare_mixed_partial",
-         "compare_wrong_on_pinned", "compare_ints_correct", "unwrap_range"]
+         "compare_wrong_on_pinned", "compare_ints_correct", "unwrap_range",
+         "varops_are_left_folds", "nary_methods_wrap", "bitwise32_range_checks", "bitwise32_eq_bitvec", "num_div_is_floor_of_quotient",
+         "num_mod_zero_is_dividend", "num_mod_floor_convention", "num_rem_is_fmod", "vm_number_handlers"]
 # configuration-generic lemmas (audited separately when Props/C14 does not build, to show what still holds)
 LEMMAS = ["opMethod_add", "opMethod_sub", "opMethod_mul", "opMethod_and", "opMethod_or", "opMethod_xor", "notMethod_bitvec", "opMethod_shl", "opMethod_sar",
           "divf_eq_floor_div", "mod_eq_floor_mod", "trunc_div_rem_correct", "mod_zero_is_dividend", "div_zero_errors", "no_ub_iff_guarded", "no_ub_partial",
           "ub_reachable_on_pinned", "compareInt64Double_correct", "compareInt64Double_partial", "compareUint64Double_partial", "compareMethod_ints",
-          "compare_ub_on_pinned", "decode_wf", "rnd53_small", "rnd53_big"]
+          "compare_ub_on_pinned", "decode_wf", "rnd53_small", "rnd53_big", "varopFold_eq_foldl", "methodLoop_add", "methodLoop_mul",
+          "bitop32_and", "bitop32_or", "bitop32_xor", "bitop32_shl", "bitop32_sar", "bitop32_shr", "checkIntRange_iff"]
 ENV = dict(os.environ, ASAN_OPTIONS="detect_leaks=0:abort_on_error=0", UBSAN_OPTIONS="print_stacktrace=0")
 HARNESS_SRC = os.path.join(VERIF, "harness/C14/arith.c")
 NJOBS = 12
@@ -287,7 +290,7 @@ def run(ctx):
                                                 "cmpS64Upper", "cmpS64Lower", "cmpU64Upper")},
     }
     return ctx.finish("proof", cov, assumptions=[
-        "IEEE-754 arithmetic of two plain numbers (+ - * / floor fmod) is hardware/libm: tested against Lean Float and Python float, not proved",
+        "IEEE-754 primitives on two plain numbers (+ - * / floor fmod) are hardware/libm: tested against Lean Float and Python float, not proved; the theorems about div/mod/% on numbers are about the VM handlers over abstract primitives under the named assumptions FloorExact / ExactAt",
         "shift counts outside the operand width and signed left shifts that overflow are undefined in ISO C; modelled as the hardware does (count mod width, "
         "two's-complement result) and tested on the non-sanitized build; the property makes no claim there",
         "`bnot` of a number outside int32 converts an out-of-range double to int32 unchecked (ISO C undefined): no claim, not compared",
